@@ -138,7 +138,15 @@ pub fn gen_enc(args: &Args) {
     for (ip, nl) in [(0u32, 0u16), (0, 1), (1, 0), (1, 1), (65536, 0), (0, 65535), (8, 2)] {
         sample.push(("fn".into(), format!("{ip}/{nl}"), Object::function(ip, nl), 0.0));
     }
-    for x in [0.0f64, -0.0, 1.0, 1.5, f64::NAN, f64::INFINITY, -1.0, 2.0, 10.0] {
+    // floats: special values, and neighbours one bit pattern apart (equality must be exact, not approximate)
+    let mut fl: Vec<f64> = vec![0.0f64, -0.0, 1.0, 1.5, f64::NAN, f64::INFINITY, -1.0, 2.0, 10.0, 5e-324, 1e-320, 1e-17, 2e-17,
+                                0.1 + 0.2, 0.3, f64::MIN_POSITIVE, f64::MAX];
+    for x in [1.0f64, 0.1, 0.3, 1e-17, 123456.789, f64::MIN_POSITIVE, 1e300] {
+        fl.push(f64::from_bits(x.to_bits() + 1));
+        fl.push(f64::from_bits(x.to_bits() - 1));
+        fl.push(-f64::from_bits(x.to_bits() + 1));
+    }
+    for x in fl {
         sample.push(("float".into(), x.to_bits().to_string(), Object::float(x, &mut gc), x));
     }
     for s in ["", "a", "b", "ab", "é", "1", "0", "ja", "10", "1.5"] {
@@ -176,7 +184,8 @@ pub fn gen_enc(args: &Args) {
             // (keys as code points: TLC's own strings are not reliable beyond ASCII)
             let ca: Vec<u32> = keya.chars().map(|c| c as u32).collect();
             let cb: Vec<u32> = keyb.chars().map(|c| c as u32).collect();
-            recs.push(json!({"k":"eq","x":{"kind":ka,"key":ca},"y":{"kind":kb,"key":cb},"eq":eq,"feq":fa == fb}));
+            recs.push(json!({"k":"eq","x":{"kind":ka,"key":ca,"f":crate::bigfam::float_fields(*fa)},
+                             "y":{"kind":kb,"key":cb,"f":crate::bigfam::float_fields(*fb)},"eq":eq}));
         }
     }
     for (i, mut r) in recs.into_iter().enumerate() {
